@@ -2,6 +2,7 @@ import FractopoModel.Spec.Arrangement
 import FractopoModel.Props.C05
 import FractopoModel.Generated.LengthFilters
 import FractopoModel.Generated.SnapConstants
+import FractopoModel.Lemmas.SnapLoop
 /-!
 # C01 — extracted topology equals the exact planar arrangement
 
@@ -174,6 +175,15 @@ theorem C01_snap_constants (minx miny maxx maxy t : Rat) (loops : Nat) :
   refine ⟨?_, rfl, ?_⟩
   · unfold Gen.snap_extended_bounds; simp only [Prod.mk.injEq]; refine ⟨?_, ?_, ?_, ?_⟩ <;> grind
   · simp [Gen.snapping_loop_raises, Gen.allowed_loops_default]
+
+/-- **The snapping stage is the identity on maps whose contacts are exact** (the hypothesis `quietMap` is
+evaluated by the oracle on the clipped pieces of every valid map of stream S01, for both candidate
+orders): the noding stage therefore sees exactly the clipped traces, with the window margin and loop
+bound of the regenerated constants (20·t, 10). -/
+theorem C01_snap_stage_identity (ord : SnapL.Ord) (t : Rat) (areas : List Polygon) (pieces : List Polyline)
+    (h : SnapL.quietMap ord t (20 * t) pieces = true) :
+    SnapL.snapLoop ord t (20 * t) areas Gen.allowed_loops_default pieces = .ok (pieces, 0) :=
+  SnapL.snapLoop_quiet ord t (20 * t) areas _ pieces h
 
 /-- non-vacuity: one crossing (node 5), one abutment (node 6), two boundary cuts -/
 example :
